@@ -54,7 +54,11 @@ def fmt(r) -> str:
     return repr(v)
 
 
+EARLY_DIFF_IDX: set[int] = set()      # positions (in the last in-process run) of results of an early Differential
+
+
 def run(seed: int, perm: int, n: int) -> list[str]:
+    EARLY_DIFF_IDX.clear()
     from . import wire
     from .core import call, sm, X
     from smoothmath import Point
@@ -89,8 +93,10 @@ def run(seed: int, perm: int, n: int) -> list[str]:
         for x in [wire.fresh_str(n) for n in names[:2]] + ["w"]:
             res.append(fmt(call(lambda: sm.Partial(mk(), x).at(p))))
             res.append(fmt(call(lambda: sm.LocatedDifferential(mk(), p).component(x))))
+            EARLY_DIFF_IDX.add(len(res))
             res.append(fmt(call(lambda: sm.Differential(mk(), compute_early=True).at(p).component(x), timeout=30)))
             res.append(fmt(call(lambda: sm.Partial(mk(), x).as_expression(), timeout=30)))
+            EARLY_DIFF_IDX.add(len(res))
             res.append(fmt(call(lambda: sm.Differential(mk(), compute_early=True).component(x).as_expression(), timeout=30)))
         res.append(fmt(call(lambda: mk()._normalize(), timeout=30)))
         # points that lack some of the variables: which error, with which message
@@ -123,7 +129,9 @@ def run(seed: int, perm: int, n: int) -> list[str]:
         qs = [lambda: sm.Partial(mkbig(), wire.fresh_str(ns[0])).as_expression(), lambda: mkbig()._normalize()]
         if terms < 300:      # the early Differential of the larger ones takes seconds
             qs.append(lambda: sm.Differential(mkbig(), compute_early=True).component(ns[1]).as_expression())
-        for q in qs:
+        for qi, q in enumerate(qs):
+            if qi == 2:
+                EARLY_DIFF_IDX.add(len(res))
             r = fmt(call(q, timeout=120))
             res.append(f"{len(r)}:{hashlib.sha256(r.encode()).hexdigest()[:24]}" if len(r) > 400 else r)
         flush_log()
